@@ -23,12 +23,21 @@ static void c06_run(vf_case *c)
     gen_spec g; run_opts o;
     gen_spec_random(r, P, &g, 2, 40, 1);
     static const int pats[] = { PAT_RANDOM_DIAG, PAT_RANDOM_DIAG, PAT_BAND, PAT_ARROW, PAT_BLOCKTRI, PAT_GRID, PAT_DENSE, PAT_BLOCKDIAG };
-    int exactcls = rng_bool(r, 0.3);      /* exact-arithmetic value classes: exact zeros can meet the remembered pivots */
+    int fillflip = rng_bool(r, 0.12);     /* constructed: arrow pattern in natural order whose first values pivot on the diagonal (no fill) and whose
+                                             later values make the dense last row win every pivot: the remembered pivots are abandoned and the refactorization
+                                             must grow every array (in both memory models) */
+    int exactcls = !fillflip && rng_bool(r, 0.3);      /* exact-arithmetic value classes: exact zeros can meet the remembered pivots */
     g.pattern = rng_pick(r, pats, 8); g.values = exactcls ? (rng_bool(r, 0.5) ? VAL_SMALLINT : VAL_POW2) : rng_bool(r, 0.5) ? VAL_UNIF : VAL_ROWSCALED; g.scale_exp = rng_int(r, 1, 3); g.explicit_zeros = 0;
     if (exactcls && g.n > 12) g.n = g.m = rng_int(r, 2, 12);
+    if (fillflip) { g.pattern = PAT_DIAG; g.values = VAL_UNIF; g.n = g.m = rng_int(r, 12, 40); }
     vf_mat A; gen_matrix(r, P, &g, &A);
+    if (fillflip) {   /* diag + dense last row + dense last column; values: diagonal 4, border 0.5 */
+        int nn = A.n; vf_mat B; B.m = B.n = nn; B.nnz = 3 * (int_t)nn - 2; B.colptr = malloc(sizeof(int_t) * (size_t)(nn + 1)); B.rowind = malloc(sizeof(int_t) * (size_t)(B.nnz + 1)); B.v = malloc(sizeof(ldc) * (size_t)(B.nnz + 1)); int_t q = 0;
+        for (int j = 0; j < nn; j++) { B.colptr[j] = q; if (j < nn - 1) { B.rowind[q] = j; B.v[q++] = P->round(4.0L + 0.01L * j); B.rowind[q] = nn - 1; B.v[q++] = P->round(0.5L + 0.003L * j); } else for (int i = 0; i < nn; i++) { B.rowind[q] = i; B.v[q++] = P->round(i == nn - 1 ? 5.0L : 0.25L + 0.002L * i); } }
+        B.colptr[nn] = q; mat_free(&A); A = B; }
     gen_run_opts(r, &o, 1);
     gen_tuning(r, 1);
+    if (fillflip) { o.opt.ColPerm = NATURAL; o.opt.SymmetricMode = NO; o.opt.DiagPivotThresh = 1.0; o.rowmajor = 0; vf_ienv_set(6, rng_int(r, 1, 2)); vf_ienv_set(3, rng_int(r, 1, 3)); vf_ienv_set(2, 1); }
     int n = A.n, maxrhs = 3; int_t nnz = A.nnz;
     int len = rng_int(r, 2, c->tier ? 12 : 7);
     gen_spec_str(&g, buf, sizeof buf); vf_desc(c, "%s; ", buf); run_opts_str(&o, buf, sizeof buf); vf_desc(c, "%s; ", buf); tuning_str(buf, sizeof buf); vf_desc(c, "%s; history:", buf);
@@ -41,7 +50,7 @@ static void c06_run(vf_case *c)
     if (use_ws) { D.lwork = (int_t)generous_lwork(P, n, nnz); work = malloc((size_t)D.lwork); D.work = work; }
     superlu_options_t xo = o.opt; xo.PrintStat = NO; xo.Equil = rng_bool(r, 0.7) ? YES : NO;
     if (xo.ColPerm == MY_PERMC) rng_perm(r, D.perm_c, n);
-    vf_tag(c, "prec=%c", P->letter); vf_tag(c, "%s", o.rowmajor ? "NR" : "NC"); vf_tag(c, "mem=%s", use_ws ? "workspace" : "malloc"); vf_tag(c, "equil=%d", xo.Equil == YES); vf_tag(c, "u=%g", xo.DiagPivotThresh); if (exactcls) { vf_tag(c, "exact-values"); xo.Equil = NO; }
+    vf_tag(c, "prec=%c", P->letter); vf_tag(c, "%s", o.rowmajor ? "NR" : "NC"); vf_tag(c, "mem=%s", use_ws ? "workspace" : "malloc"); vf_tag(c, "equil=%d", xo.Equil == YES); if (fillflip) { vf_tag(c, "constructed=fillflip"); xo.Equil = NO; } vf_tag(c, "u=%g", xo.DiagPivotThresh); if (exactcls) { vf_tag(c, "exact-values"); xo.Equil = NO; }
     vf_sig_u64(c, mat_pattern_hash(&A)); vf_sig_u64(c, (uint64_t)o.rowmajor * 2 + (uint64_t)use_ws);
     int factored_ok = 0, ever_factored = 0, steps_judged = 0; ld cf = P->cplx ? 16 : 8;
     for (int step = 0; step < len && c->verdict != 1; step++) {
@@ -56,11 +65,13 @@ static void c06_run(vf_case *c)
         if (op != 3) {
             /* new values for this step */
             int vm = step == 0 ? 1 : rng_int(r, 0, exactcls ? 6 : 4);
+            if (fillflip && step > 0) vm = 7;
             for (int_t k = 0; k < nnz; k++) {
                 ldc base = step == 0 ? V0[k] : V[k], nv;
                 switch (vm) {
                 case 0: nv = base * (1 + 1e-3L * (ld)(2 * rng_unif(r) - 1)); break;                       /* tiny perturbation */
                 case 1: nv = base; break;                                                                   /* same values */
+                case 7: { const NCformat *s_ = D.A.Store; int rr_ = (int)s_->rowind[k]; nv = V0[k]; if (rr_ == n - 1) nv = V0[k] * 64.0L; } break;   /* last row dominates every column */
                 case 2: nv = (2 * rng_unif(r) - 1) + (P->cplx ? (2 * rng_unif(r) - 1) * I : 0); if (cabsl(nv) < 1e-3L) nv = 0.5L; break;   /* unrelated values */
                 case 3: nv = base * 1024.0L; break;                                                         /* global rescaling */
                 case 4: { const NCformat *s = D.A.Store; nv = base * ldexpl(1.0L, (int)(s->rowind[k] % 7) - 3); } break;   /* per-line rescaling */
@@ -79,7 +90,8 @@ static void c06_run(vf_case *c)
             int_t info = D.info;
             if (op != 0 && (memcmp(pc_in, D.perm_c, sizeof(int) * (size_t)n) || memcmp(et_in, D.etree, sizeof(int) * (size_t)n)))
                 vf_viol(c, "reuse-changed-perm_c-or-etree", "step %d %s: perm_c/etree were modified although they are inputs for this Fact", step, opn[op]);
-            if (op == 2 && (info == 0 || info == n + 1)) { if (memcmp(pr_in, D.perm_r, sizeof(int) * (size_t)n)) { vf_tag(c, "rowperm-abandoned"); c->counters[1]++; } else c->counters[2]++; }
+            if (op == 2 && (info == 0 || info == n + 1)) { if (memcmp(pr_in, D.perm_r, sizeof(int) * (size_t)n)) { vf_tag(c, "rowperm-abandoned"); c->counters[1]++; } else c->counters[2]++;
+                if (D.stat.expansions > 0) { vf_tag(c, use_ws ? "reuse-expansion=workspace" : "reuse-expansion=malloc"); c->counters[5]++; } }
             free(pr_in); free(pc_in); free(et_in);
             factored_ok = (info == 0 || info == n + 1);
             if (info < 0 || (info > n + 1 && !use_ws)) vf_viol(c, "info-unexpected", "step %d %s: info=%lld", step, opn[op], (long long)info);
